@@ -21,10 +21,10 @@
               string-values of elements and leaves agree between model and specification;
               node tests agree given [NamesOk] (the dom's expanded names are those of Namespaces
               in XML: the statement of C10, decidable: [names_ok_b]);
-              WHOLE QUERIES that are one location path without predicates over these axes, with
-              any node tests, [/] and [//], relative or absolute: [query] = [spec_query]
-              ([C05_rung1_paths_partial]).
-    Not proved: parent / ancestor / sibling / following / preceding axes, predicates and the
+              WHOLE QUERIES that are one location path without predicates over these axes and
+              parent / ancestor / ancestor-or-self, with any node tests, [/] and [//], relative or
+              absolute: [query] = [spec_query] ([C05_rung1_paths_partial]).
+    Not proved: sibling / following / preceding axes, predicates and the
     induction over all expressions, comparisons, the function library (C09).  For everything that is not proved the
     equality is TESTED on every run: checks/C05.py evaluates implementation, model and
     specification on the same generated cases (and an exhaustive axis x test x predicate family).
@@ -102,11 +102,12 @@ Theorem C05_rung1_node_test_partial :
 Proof. exact node_test_agrees. Qed.
 
 (** a query that is one predicate-free location path over the child, attribute, self, descendant,
-    descendant-or-self axes (abbreviated or not), any node tests with bound prefixes, steps joined by
-    [/] or [//], relative or absolute, has the value XPath 1.0 prescribes: the same nodes in the
-    same order, and the context is returned unchanged *)
+    descendant-or-self, parent, ancestor, ancestor-or-self axes (abbreviated or not: [@], [.], [..]),
+    any node tests with bound prefixes, steps joined by [/] or [//], relative or absolute, has the
+    value XPath 1.0 prescribes: the same nodes in the same order, and the context is returned
+    unchanged.  [ParentsOk]: the dom's parent observation is the parent in the tree (decidable). *)
 Theorem C05_rung1_paths_partial :
-  forall (doc : xdoc), DocInv doc -> SpecShape doc -> NamesOk doc ->
+  forall (doc : xdoc), DocInv doc -> SpecShape doc -> NamesOk doc -> ParentsOk doc ->
   forall (ns : list (option str * str)), ns_lookup ns None = None ->
   forall (p : path_expr) (c : ctx) (pos size : N), c_ns c = ns -> simple_path ns p ->
   exists lm : list node,
@@ -116,6 +117,8 @@ Proof. exact path_query_agrees. Qed.
 
 Theorem C05_names_ok_decidable : forall doc : xdoc, names_ok_b doc = true -> NamesOk doc.
 Proof. exact names_ok_b_sound. Qed.
+Theorem C05_parents_ok_decidable : forall doc : xdoc, parents_ok_b doc = true -> ParentsOk doc.
+Proof. exact parents_ok_b_sound. Qed.
 
 Theorem C05_spec_shape_decidable : forall doc : xdoc, spec_shape_b doc = true -> SpecShape doc.
 Proof. exact spec_shape_b_sound. Qed.
@@ -125,21 +128,28 @@ Example C05_example_hypotheses : DocInv ex_doc /\ SpecShape ex_doc.
 Proof. split; [exact ex_doc_inv|apply spec_shape_b_sound; vm_compute; reflexivity]. Qed.
 
 (** <r xmlns:p="urn:p" a="1"><b p:x="2">t<p:e/></b><c><f/></c><d/></r> with p bound to urn:p:
-    //b/p:e, /r//node(), //@star and r/b/@p:x are instances of [C05_rung1_paths_partial] *)
+    //b/p:e, /r//node(), //@star, r/b/@p:x, //f/ancestor-or-self::star and //p:e/../@p:x are instances of
+    [C05_rung1_paths_partial] *)
 Definition c05_ctx : ctx := add_ns (Some [112]%N) [117;114;110;58;112]%N ctx_default.
 Example C05_example_paths_hypotheses :
-  DocInv path_doc /\ SpecShape path_doc /\ NamesOk path_doc /\ ns_lookup (c_ns c05_ctx) None = None.
+  DocInv path_doc /\ SpecShape path_doc /\ NamesOk path_doc /\ ParentsOk path_doc /\
+  ns_lookup (c_ns c05_ctx) None = None.
 Proof.
   split; [apply Proofs.XPathDocCheck.doc_inv_b_sound; vm_compute; reflexivity|].
   split; [apply spec_shape_b_sound; vm_compute; reflexivity|].
-  split; [apply names_ok_b_sound; vm_compute; reflexivity|reflexivity].
+  split; [apply names_ok_b_sound; vm_compute; reflexivity|].
+  split; [apply parents_ok_b_sound; vm_compute; reflexivity|reflexivity].
 Qed.
 Example C05_example_paths_values :
-  fst (query path_doc path_doc_e0 c05_ctx) = Ok (XNodes [11]%N) /\
-  spec_query path_doc (c_ns c05_ctx) 0 0 path_doc_e0 = Some (SNodes [Row 11%N]) /\
+  fst (query path_doc path_doc_e0 c05_ctx) = Ok (XNodes [9]%N) /\
+  spec_query path_doc (c_ns c05_ctx) 0 0 path_doc_e0 = Some (SNodes [Row 9%N]) /\
   value_abs (fst (query path_doc path_doc_e1 c05_ctx)) = spec_query path_doc (c_ns c05_ctx) 0 0 path_doc_e1 /\
   value_abs (fst (query path_doc path_doc_e3 c05_ctx)) = spec_query path_doc (c_ns c05_ctx) 0 0 path_doc_e3 /\
-  fst (query path_doc path_doc_e3 c05_ctx) = Ok (XNodes [8]%N).
+  fst (query path_doc path_doc_e3 c05_ctx) = Ok (XNodes [7]%N) /\
+  value_abs (fst (query path_doc path_doc_e4 c05_ctx)) = spec_query path_doc (c_ns c05_ctx) 0 0 path_doc_e4 /\
+  fst (query path_doc path_doc_e4 c05_ctx) = Ok (XNodes [1; 11; 13]%N) /\
+  value_abs (fst (query path_doc path_doc_e5 c05_ctx)) = spec_query path_doc (c_ns c05_ctx) 0 0 path_doc_e5 /\
+  fst (query path_doc path_doc_e5 c05_ctx) = Ok (XNodes [7]%N).
 Proof. vm_compute. repeat split; reflexivity. Qed.
 
 Example C05_example_refines :
@@ -162,7 +172,7 @@ Example C05_example_repaired :
   value_abs (fst (query c05_doc c05_doc_e2 ctx_default)) = spec_query c05_doc [] 0 0 c05_doc_e2 /\
   spec_query c05_doc [] 0 0 c05_doc_e2 = Some (SNodes []) /\
   value_abs (fst (query c05_doc c05_doc_e6 ctx_default)) = spec_query c05_doc [] 0 0 c05_doc_e6 /\
-  spec_query c05_doc [] 0 0 c05_doc_e6 = Some (SNodes [Row 10; Row 12]%N) /\
+  spec_query c05_doc [] 0 0 c05_doc_e6 = Some (SNodes [Row 7; Row 9]%N) /\
   value_abs (fst (query c05_doc c05_doc_e4 ctx_default)) = spec_query c05_doc [] 0 0 c05_doc_e4 /\
   spec_query c05_doc [] 0 0 c05_doc_e4 = Some (SNodes [Row 2%N]).
 Proof. vm_compute. repeat split; reflexivity. Qed.
@@ -171,7 +181,7 @@ Proof. vm_compute. repeat split; reflexivity. Qed.
     dom (no parent: //namespace::star/..) and no usable order key (D19) *)
 Theorem C05_refuted_namespace_parent_D19 :
   value_abs (fst (query c05_doc c05_doc_e7 ctx_default)) = Some (SNodes []) /\
-  spec_query c05_doc [] 0 0 c05_doc_e7 = Some (SNodes [Row 2; Row 10]%N).
+  spec_query c05_doc [] 0 0 c05_doc_e7 = Some (SNodes [Row 2; Row 7]%N).
 Proof. vm_compute. split; reflexivity. Qed.
 
 Theorem C05_refuted_namespace_nodes_D19 :               (* //namespace::* on <r xmlns:p="u"><b/></r> *)
